@@ -1,5 +1,6 @@
 """C50 — ordering lists and association proxies behave as their collection types: OrderingList position bookkeeping and the
-list proxy _AssociationList (append, extend, pop, int-index get/set/del, clear, len against the view of proxied values) under
+list proxy _AssociationList (append, extend, pop, int-index get/set/del, clear, len) and the dict proxy _AssociationDict
+(__getitem__, __setitem__, __delitem__, __contains__, clear, popitem), both against the view of proxied values, under
 proof; operation sequences (bound / un-instrumented OrderingList, association proxies) as the bounded complement."""
 import importlib
 import contracts.orderinglist  # noqa: F401
@@ -19,5 +20,5 @@ def run(run, tier, seed, args):
         "the ordering attribute is a ghost field `pos` read/written by _get_order_value/_set_order_value (getattr/setattr on the configured name); ordering_func is pure",
         "no entity occurs twice in the list (precondition); super().<op> is the builtin list operation",
         "under proof: _order_entity, reorder, append, insert, pop, remove, __delitem__(int); __setitem__ (known defects DESIGN §6 #6/#7), inherited extend/sort/reverse (#18) are in the bounded complement",
-        "_AssociationList: view = [getter(m) for m in col]; getter / creator are pure and _create(value) returns an object whose proxied value is value (the round trip the class documents as assumed); `col` (lazy_collection()) is read as a list attribute; insert / slices / remove / iteration / the set and dict proxies are in the bounded complement",
+        "_AssociationList: view = [getter(m) for m in col]; getter / creator are pure and _create(value) returns an object whose proxied value is value (the round trip the class documents as assumed); `col` (lazy_collection()) is read as a list attribute; list insert / slices / remove / iteration, dict setdefault / get / update / _bulk_replace and the set proxy are in the bounded complement",
     ]
